@@ -92,6 +92,16 @@ def verifyUseResult (v : VerifiedName) : WireReply → UseRes
   | .other => .error .unexpected
   | .brokenConn => .error .broken
 
+/-- The keyspace a server selects for the statement of a verified name: a quoted name (`USE "x"`) exactly as it
+is, an unquoted one (`USE x`) folded to lower case. -/
+def resolveName (v : VerifiedName) : String :=
+  if v.caseSensitive then v.name else String.ofList (v.name.toList.map asciiLower)
+
+/-- A server with the keyspaces `existing` executes the `USE` statement of `v`: it answers SetKeyspace with the
+RESOLVED name, or an Invalid error if there is no such keyspace. -/
+def serverUse (existing : List String) (v : VerifiedName) : WireReply :=
+  if existing.contains (resolveName v) then .setKeyspace (resolveName v) else .error
+
 /-! ## 2. `use_keyspace_result` -/
 
 inductive Outcome where
@@ -219,6 +229,29 @@ def Pool.canUseShardAware (p : Pool K) : Bool := p.sharder.isSome && !p.blocked
 def Pool.close (p : Pool K) (i : Nat) : Pool K :=
   { p with net := setConn p.net i { p.net i with broken := true } }
 
+/-- Insert `i` into a list ordered by shard, behind the connections of its own and of lower shards. -/
+def insertByShard (sh : Nat → Nat) (i : Nat) : List Nat → List Nat
+  | [] => [i]
+  | j :: l => if sh i < sh j then i :: j :: l else j :: insertByShard sh i l
+
+/-- `self.conns` is a `Vec<Vec<Arc<Connection>>>` indexed by shard: walking it "for shard_conns in conns, for conn
+in shard_conns" (`use_keyspace`, `connection_pool.rs:1296-1300`) visits the connections bucket by bucket, each
+bucket in its own order. `conns` keeps each bucket's order; this is the concatenation of the buckets. -/
+def Pool.byShard (p : Pool K) : List Nat :=
+  p.conns.foldl (fun acc i => insertByShard (fun j => (p.net j).shard) i acc) []
+
+/-- `Vec::swap_remove(idx)` on the bucket of `i` (`remove_connection`): the bucket's last connection takes the
+place of the removed one; the other buckets are untouched. -/
+def Pool.removeConn (p : Pool K) (i : Nat) : List Nat :=
+  let s := (p.net i).shard
+  let b := p.conns.filter fun j => (p.net j).shard == s
+  let b' := match b.idxOf? i with
+    | some idx => match b.getLast? with
+      | some last => (b.set idx last).dropLast
+      | none => []
+    | none => b
+  (p.conns.filter fun j => (p.net j).shard != s) ++ b'
+
 /-- `start_filling`: how many open futures are pushed. -/
 def Pool.toOpen (p : Pool K) : Nat :=
   if p.conns.isEmpty then 1
@@ -275,7 +308,7 @@ def Task.resultList (t : Task K) : List UseRes := t.snapshot.filterMap fun i => 
 def step (p : Pool K) : Ev K → Pool K
   | .useKs k =>
     -- `self.current_keyspace = Some(k)`; clone `conns`; spawn the task; an empty snapshot answers Ok at once
-    let t : Task K := { id := p.tasks.length, ks := k, snapshot := p.conns, submitted := [], results := [],
+    let t : Task K := { id := p.tasks.length, ks := k, snapshot := p.byShard, submitted := [], results := [],
                         resp := if p.conns.isEmpty then some .ok else none }
     { p with currentKs := some k, tasks := t :: p.tasks,
              overlap := p.tasks.any (fun t => t.resp.isNone) }
@@ -374,7 +407,7 @@ def step (p : Pool K) : Ev K → Pool K
   | .connError i =>
     -- `remove_connection`: from its shard bucket, else from the excess connections
     if !(p.net i).broken then p
-    else if p.conns.contains i then { p with conns := p.conns.filter (· ≠ i) }
+    else if p.conns.contains i then { p with conns := p.removeConn i }
     else { p with excess := p.excess.filter (· ≠ i) }
   | .userUse i x =>
     -- a request picked the published connection `i` and wrote the user's `USE x` on it
@@ -466,18 +499,19 @@ structure Cluster (K : Type) where
   pools : Nat → Pool K                -- every node ever created, by id
   nNodes : Nat
   known : List Nat                    -- `cluster_state.known_nodes`
+  filtered : List Nat                 -- nodes rejected by the host filter: they have no pool (`Node::use_keyspace` answers Ok)
   fanouts : List (Fanout K)           -- newest first
   overlap : Bool                      -- ghost: the NEWEST use-keyspace request was handled while an earlier one was unanswered
 
 def Cluster.init (perShard : Bool) (target : Nat) : Cluster K :=
-  { usedKs := none, pools := fun _ => Pool.init perShard target none, nNodes := 0, known := [], fanouts := [],
+  { usedKs := none, pools := fun _ => Pool.init perShard target none, nNodes := 0, known := [], filtered := [], fanouts := [],
     overlap := false }
 
 inductive CEv (K : Type) where
   | useKs (k : K)                     -- the worker's use-keyspace arm
   | deliver (f n : Nat)               -- fan-out `f`'s request reaches node `n`'s refiller
   | pool (n : Nat) (e : Ev K)         -- any refiller / task / network event of node `n` other than `useKs`
-  | addNode (perShard : Bool) (target : Nat)   -- metadata application creates a node (`Node::new(.., node_config)`)
+  | addNode (perShard : Bool) (target : Nat) (filtered : Bool)   -- metadata application creates a node (`Node::new(.., node_config)`); `filtered`: the host filter rejects it, it gets no pool
   | removeNode (n : Nat)
   | fanoutFinish (f : Nat)            -- `join_all` over the nodes done: `use_keyspace_result`
 
@@ -521,10 +555,13 @@ def cstep (c : Cluster K) : CEv K → Cluster K
         { c with pools := setPool c.pools n (step p (.useKs f.ks)),
                  fanouts := modifyFanout c.fanouts fid fun f => { f with sent := (n, p.tasks.length) :: f.sent } }
   | .pool n e =>
-    if e.isUseKs || n ≥ c.nNodes then c else { c with pools := setPool c.pools n (step (c.pools n) e) }
-  | .addNode perShard target =>
+    -- a host-filtered node has no pool: nothing ever happens there (its never-stepped pool has no connection, so a
+    -- delivered request is answered Ok at once - `Node::use_keyspace` without a pool, node.rs:305-313)
+    if e.isUseKs || n ≥ c.nNodes || c.filtered.contains n then c else { c with pools := setPool c.pools n (step (c.pools n) e) }
+  | .addNode perShard target filtered =>
     { c with pools := setPool c.pools c.nNodes (Pool.init perShard target c.usedKs), nNodes := c.nNodes + 1,
-             known := c.known ++ [c.nNodes] }
+             known := c.known ++ [c.nNodes],
+             filtered := if filtered then c.nNodes :: c.filtered else c.filtered }
   | .removeNode n => { c with known := c.known.filter (· ≠ n) }
   | .fanoutFinish fid =>
     match c.fanouts.find? (·.id = fid) with
